@@ -317,7 +317,7 @@ class EmpiricalSubstitutionModel(SubstitutionModel):
 
     def p_t(self, branch_lengths: torch.Tensor) -> torch.Tensor:
         offset = branch_lengths.dim() - self.e.dim() + 1
-        return (
+        matrices = (
             (self.sqrt_pi_inv @ self.v).reshape(
                 self.e.shape[:-1] + (1,) * offset + self.sqrt_pi_inv.shape[-2:]
             )
@@ -328,6 +328,12 @@ class EmpiricalSubstitutionModel(SubstitutionModel):
             @ (self.v.inverse() @ self.sqrt_pi).reshape(
                 self.e.shape[:-1] + (1,) * offset + self.sqrt_pi_inv.shape[-2:]
             )
+        )
+        # P(0) is exactly the identity (see SymmetricSubstitutionModel.p_t)
+        return torch.where(
+            (branch_lengths == 0.0).unsqueeze(-1).unsqueeze(-1),
+            torch.eye(matrices.shape[-1], dtype=matrices.dtype, device=matrices.device),
+            matrices,
         )
 
     def eigen(self, Q: torch.Tensor) -> torch.Tensor:
